@@ -14,7 +14,7 @@ import (
 
 func init() {
 	checkers["C02"] = checker{
-		rule: "signed images: synthetic well-formed images signed by the library with one or two keys, and the sbsign-signed HelloWorld fixture; adversarial derivations of each: single-byte changes at positions drawn from every region (sampled; exhaustive for the smallest image in the thorough tier), transplant of the signature table onto another image, rewrites inside the PKCS#7 blob with lengths fixed up (the digest in SpcIndirectDataContent alone, digest + image together (the digest-swap forgery), content, content type, certificates, messageDigest, signature, attributes), re-embedded as a fresh WIN_CERTIFICATE; verifying certificates: the signer's, another key under the same issuer+serial, same key other serial / issuer, unrelated; Parse(x).Verify(cert) runs in the sandboxed worker; R_C02 (extracted check_pe_verify) accepts a success only if some table entry is an Authenticode signature whose digest is the SHA-256 of the specification content of exactly these bytes and whose SignedData is valid for the certificate (R_C04); non-trivial = the image carries a table; distinct by (image, certificate) hash",
+		rule: "signed images: synthetic well-formed images signed by the library with one or two keys, and the sbsign-signed HelloWorld fixture; adversarial derivations of each: single-byte changes at positions drawn from every region (sampled; exhaustive for the smallest image in the thorough tier), transplant of the signature table onto another image, rewrites inside the PKCS#7 blob with lengths fixed up (the digest in SpcIndirectDataContent alone, digest + image together (the digest-swap forgery; the two-signer forgery: a changed image signed by a foreign key with the genuine signer entry appended behind), content, content type, certificates, messageDigest, signature, attributes), re-embedded as a fresh WIN_CERTIFICATE; verifying certificates: the signer's, another key under the same issuer+serial, same key other serial / issuer, unrelated; Parse(x).Verify(cert) runs in the sandboxed worker; R_C02 (extracted check_pe_verify) accepts a success only if some table entry is an Authenticode signature whose digest is the SHA-256 of the specification content of exactly these bytes and whose SignedData is valid for the certificate (R_C04); non-trivial = the image carries a table; distinct by (image, certificate) hash",
 		run:  runC02,
 	}
 }
@@ -164,8 +164,47 @@ func runC02(c *Ctx) {
 					}
 				}
 			}
+			if f := twoSignerForgery(si.img, si.blobs[0]); f != nil {
+				check("two-signer-forgery", f, false)
+			}
 		}
 	}
 	_ = x509.Certificate{}
 	_ = rand.Int
+}
+
+// twoSignerForgery: a covered byte of the signed image is changed, an attacker signs
+// the changed image with a key of their own, and the genuine signer entry is
+// appended behind the attacker's in the same SignedData.
+func twoSignerForgery(signedImg []byte, genuineBlob []byte) []byte {
+	m := append([]byte{}, signedImg...)
+	m[2] ^= 0xff
+	// the changed image without its table
+	e := int(binary.LittleEndian.Uint32(m[0x3c:]))
+	dd4 := e + 24 + 128
+	if binary.LittleEndian.Uint16(m[e+24:]) == 0x20b {
+		dd4 = e + 24 + 144
+	}
+	va := int(binary.LittleEndian.Uint32(m[dd4:]))
+	if va == 0 || va > len(m) {
+		return nil
+	}
+	bare := append([]byte{}, m[:va]...)
+	for i := 0; i < 8; i++ {
+		bare[dd4+i] = 0
+	}
+	p, err := authenticode.Parse(bytes.NewReader(bare))
+	if err != nil {
+		return nil
+	}
+	ak := rsaKey(2048, 3)
+	ab, err := p.Sign(ak, simpleCert(ak, "attacker", 666))
+	if err != nil {
+		return nil
+	}
+	g := graftSigner(ab, genuineBlob)
+	if g == nil {
+		return nil
+	}
+	return rebuildWithBlobs(m, [][]byte{g})
 }
